@@ -26,17 +26,21 @@ Qed.
 Lemma own_mk E s c f v d : (d <> [] -> c = sh_NodeConstraintComponent) -> owned_by E s (mk s c f v d).
 Proof. intros H. exists s. split; [constructor|]. simpl. auto. Qed.
 
+Lemma own_mkp E s c f v p : owned_by E s (mkp s c f v p []).
+Proof. exists s. split; [constructor|]. simpl. repeat split; auto. intros H; exfalso; apply H; reflexivity. Qed.
+
 Ltac own_nil := apply own_mk; intros Hd; exfalso; apply Hd; reflexivity.
 
 Section WithTrig.
 Variable trig : trig_t.
+Variable W : world.
 
 Definition nested_owned (E:env) (nested:nested_t) : Prop :=
   forall s' v ep cr, nested s' v ep = Ok cr -> Forall (owned_by E s') (snd cr).
 
 Lemma evalc_owned nested g E s fvs ep c cr :
   In c (scomps s) -> nested_owned E nested ->
-  evalc trig nested g E s fvs ep c = Ok cr -> Forall (owned_by E s) (snd cr).
+  evalc trig W nested g E s fvs ep c = Ok cr -> Forall (owned_by E s) (snd cr).
 Proof.
   intros Hc Hn H. apply Forall_forall. intros x Hx. revert H Hx. destruct c; cbn [evalc].
   - intros [= <-] Hx. simpl in Hx. apply in_flat_map in Hx as (fv & _ & Hx).
@@ -98,6 +102,11 @@ Proof.
     cbv zeta in Efv. injection Efv as <-. apply in_app_iff in Hin as [Hin|Hin].
     + destruct (Zle_opt _ _ _); [destruct Hin as [<-|[]]; own_nil|destruct Hin].
     + destruct qmin as [m|]; [|destruct Hin]. destruct (_ <? _)%Z; [destruct Hin as [<-|[]]; own_nil|destruct Hin].
+  - destruct (negb closed); [intros [= <-] []|].
+    intros H Hx. apply bind_ok in H as (pss & _ & Eq). injection Eq as <-. simpl in Hx.
+    apply in_flat_map in Hx as (fv & _ & Hx). apply in_flat_map in Hx as (v & _ & Hx).
+    apply in_flat_map in Hx as (t & _ & Hx).
+    destruct (_ || _ || _); [destruct Hx|destruct Hx as [<-|[]]; apply own_mkp].
 Qed.
 
 Lemma loop_owned o top E s ev : (forall c cr, In c (scomps s) -> ev c = Ok cr -> Forall (owned_by E s) (snd cr)) ->
@@ -121,7 +130,7 @@ Proof.
 Qed.
 
 Theorem vshape_owned o g E : forall fuel top ep s foci cr,
-  vshape trig fuel o g E top ep s foci = Ok cr -> Forall (owned_by E s) (snd cr).
+  vshape trig W fuel o g E top ep s foci = Ok cr -> Forall (owned_by E s) (snd cr).
 Proof.
   induction fuel as [|fuel IH]; intros top ep s foci cr; cbn [vshape];
     (destruct (deact s); [intros [= <-]; constructor|]); (destruct (isnil foci); [intros [= <-]; constructor|]);
@@ -133,7 +142,7 @@ Qed.
 
 (* a deactivated shape: every node conforms, nothing is reported *)
 Theorem vshape_deactivated o g E fuel top ep s foci :
-  deact s = true -> vshape trig fuel o g E top ep s foci = Ok (true, []).
+  deact s = true -> vshape trig W fuel o g E top ep s foci = Ok (true, []).
 Proof. intros H. destruct fuel; cbn [vshape]; rewrite H; reflexivity. Qed.
 
 End WithTrig.
